@@ -3,7 +3,8 @@
    EVERY placement of n_boxes targets, of at most MaxWalls walls, of n_boxes boxes and of the agent on the
    remaining cells (solvable or not: a superset of sensible levels), every time limit in Limits, every action
    (legal or not) at every step, and PostSteps steps after termination.  n_boxes is the model constant
-   Cfg.n_boxes (MCCfg1 / MCCfg2). *)
+   Cfg.n_boxes (MCCfg1 / MCCfg2); smaller boards (2 x 3 with walls, 2 x 4 with two boxes: chained pushes) keep
+   the quick tier small. *)
 EXTENDS Sokoban
 
 CONSTANTS MaxWalls,        \* at most this many wall cells inside the room
@@ -17,7 +18,9 @@ vars == <<s, lim, last>>
 MCCfg1  == [num_rows |-> 3, num_cols |-> 4, n_boxes |-> 1, time_limit |-> 0, reward |-> "dense", generator |-> "levels"]
 MCCfg2  == [num_rows |-> 3, num_cols |-> 4, n_boxes |-> 2, time_limit |-> 0, reward |-> "dense", generator |-> "levels"]
 MCCfg2s == [num_rows |-> 3, num_cols |-> 4, n_boxes |-> 2, time_limit |-> 0, reward |-> "sparse", generator |-> "levels"]
+MCCfg1s == [num_rows |-> 3, num_cols |-> 4, n_boxes |-> 1, time_limit |-> 0, reward |-> "sparse", generator |-> "levels"]
 MCCfg1x == [num_rows |-> 2, num_cols |-> 3, n_boxes |-> 1, time_limit |-> 0, reward |-> "sparse", generator |-> "levels"]
+MCCfg2x == [num_rows |-> 2, num_cols |-> 4, n_boxes |-> 2, time_limit |-> 0, reward |-> "dense", generator |-> "levels"]
 
 KSub(S, k) == { x \in SUBSET S : Cardinality(x) = k }
 UpTo(S, k) == { x \in SUBSET S : Cardinality(x) <= k }
